@@ -139,6 +139,11 @@ def generate(rng, tier):
         plan["kwargs"] = {"k%d" % i: tdsl.gen_value(rng, ft["kwargs"], pool, positions, ("**", i))
                           for i in range(rng.choice([0, 1, 2]))}
         plan["opts_at"] = "class"
+        if not plan["kwonly"] and rng.random() < 0.3:
+            # the first parameter is given by keyword, under its alias, and depends on another (keyword-only) parameter
+            plan["a_kw"] = {"alias": rng.choice([None, "Aa"]), "deps": rng.random() < 0.7, "d0": rng.choice([None, 1, "2"])}
+            plan["nargs"] = 0
+            plan["args"] = []
     # faults: any subset of reachable leaf positions, biased to "some but not all"
     fl = {}
     if positions:
@@ -258,10 +263,25 @@ def build(plan, strict=False):
             def f(a=None, *args, **kwargs):
                 return (a, args, kwargs)
         ft = plan.get("ftypes") or {"a": ["leaf"], "args": ["leaf"], "kwargs": ["leaf"]}
+        akw = plan.get("a_kw")
+        if akw:
+            pk = {}
+            if akw["alias"]:
+                pk["alias"] = akw["alias"]
+            if akw["deps"]:
+                pk["dependencies"] = ["d0"]
+
+            def f(a=utype.Param(None, **pk), *args, d0=None, **kwargs):
+                return (a, args, kwargs)
         f.__annotations__ = {r: tdsl.build_type(ft[r]) for r in ("a", "args", "kwargs")}
+        if akw:
+            f.__annotations__["d0"] = int
         f.__module__ = "verif_c11"
         f.__qualname__ = f.__name__ = "f"
         g = utype.parse(f, options=opts, no_cache=True)
+        if akw:
+            extra = {} if akw["d0"] is None else {"d0": akw["d0"]}
+            return lambda v: g(**{akw["alias"] or "a": v["a"]}, **extra, **v["kwargs"])
         return lambda v: g(v["a"], *v["args"], **v["kwargs"])
     raise ValueError(kind)
 
@@ -454,12 +474,14 @@ def ref_plan(plan, value, pol, stats):
     if kind == "func":
         ft = plan.get("ftypes") or {"a": ["leaf"], "args": ["leaf"], "kwargs": ["leaf"]}
         a = _scalar_alone(ft["a"], value["a"])
+        a_excluded = False
         if a is FAIL:
             p = pol["invalid_values"]
             if p == "exclude":
                 if plan["kwonly"]:
                     return FAIL   # required parameter
                 a = None
+                a_excluded = True
             elif p == "preserve":
                 a = value["a"]
             else:
@@ -489,6 +511,10 @@ def ref_plan(plan, value, pol, stats):
                 else:
                     return FAIL
             kwargs[key] = r
+        akw = plan.get("a_kw")
+        if akw and akw["deps"] and not a_excluded and akw["d0"] is None:
+            stats["probe:dependency_missing_for_kept_field"] += 1
+            return FAIL
         return (a, tuple(args), kwargs)
 
 
